@@ -23,6 +23,7 @@ def shape_soa_beside_ns_goes_through_allowlist : Bool := true
 def shape_validated_denial_keeps_signer_zone_only : Bool := true
 def shape_verifydnssec_anchors_own_dnskey_rrset : Bool := true
 def shape_wildcard_proof_from_filtered_authority : Bool := true
+def shape_window_checked_on_real_clock : Bool := true
 def shape_zone_security_judged_for_serving_zone_answer : Bool := true
 def shape_zone_security_judged_for_serving_zone_authority : Bool := true
 def shape_zone_security_judged_for_serving_zone_validateDelegation : Bool := true
